@@ -107,6 +107,22 @@ class PB(ExprBuilder):
             return ('call', 'py:' + ast.unparse(e).replace(" ", ""), ())
         return super().build(e, env)
 
+    def _cmp(self, op, a, b):
+        r = super()._cmp(op, a, b)
+        # np.sum(mask, ..) > 0  ==  np.any(mask, ..)   (and `0 < np.sum(mask)`); np.sum(mask) == 0  ==  not np.any(mask)
+        o, x, y = r[1], r[2], r[3]
+        if o == '<':
+            o, x, y = '>', y, x
+        if isinstance(x, tuple) and x and x[0] == 'call' and x[1] == 'sum' and self._is_bool(x[2][0]) and y == num(0):
+            anyx = ('call', 'any', x[2]) + tuple(x[3:])
+            if o in ('>', '!='):
+                return anyx
+            if o in ('==', '<='):
+                return ('not', anyx)
+        if isinstance(x, tuple) and x and x[0] == 'call' and x[1] == 'sum' and self._is_bool(x[2][0]) and y == num(1) and o == '>=':
+            return ('call', 'any', x[2]) + tuple(x[3:])
+        return r
+
     # -- subscripts ------------------------------------------------------------------------------------------
     def _getitem(self, base, sl, env):
         if isinstance(base, tuple) and base[0] == 'tuple' and isinstance(sl, ast.Constant) and isinstance(sl.value, int) and \
@@ -168,7 +184,17 @@ class PB(ExprBuilder):
             return ('call', 'apply', (env[e.func.id],) + tuple(args), *((kw,) if kw else ()))
         return ('call', 'f:' + (d or ast.unparse(e.func)), tuple(args), *((kw,) if kw else ()))
 
+    @staticmethod
+    def _is_bool(x):
+        while isinstance(x, tuple) and x and x[0] == 'call' and x[1] == 'astype' and len(x[2]) == 2:
+            x = x[2][0]
+        return isinstance(x, tuple) and x and x[0] in ('cmp', 'and', 'or', 'not')
+
     def _reduce(self, m, x, kw):
+        # the sum of a boolean array counts its true entries whatever integer type it is cast to first
+        if m == "sum" and isinstance(x, tuple) and x and x[0] == 'call' and x[1] == 'astype' and len(x[2]) == 2 and self._is_bool(x[2][0]) and \
+                x[2][1][0] == 'sym' and x[2][1][1] in ("int", "np.int64", "np.int32", "'int'"):
+            x = x[2][0]
         # np.min(np.unique(x)) = np.min(x)
         while isinstance(x, tuple) and x[0] == 'call' and x[1] in IDEMPOTENT_UNDER.get(m, ()) and len(x[2]) == 1 and len(x) == 3:
             x = x[2][0]
@@ -186,6 +212,11 @@ class PB(ExprBuilder):
         fn = {"absolute": "abs", "amin": "min", "amax": "max", "power": "pow"}.get(fn, fn)
         if fn == "pow" and len(args) == 2:
             return ('pow', args[0], args[1])
+        if fn == "count_nonzero" and args:
+            fn = "sum"
+        if fn in REDUCERS and len(args) == 2 and "axis" not in kw:
+            kw["axis"] = args[1]
+            args = args[:1]
         if fn in REDUCERS and len(args) == 1:
             return self._reduce(fn, args[0], tuple(sorted(kw.items(), key=lambda x: x[0])))
         if fn in ("zeros", "ones", "empty") and args:
@@ -529,11 +560,36 @@ def sort_bool(e):
     return tuple(out)
 
 
-def same(a, b, env=None):
+FLOAT_TYPES = {"float", "np.float64", "'float64'", "'float'", "np.double", "np.float32"}
+
+
+def strip_float_casts(e):
+    """x.astype(float) carries the value of x (integers are represented exactly): transparent for value comparisons"""
+    if not isinstance(e, tuple) or not e or not isinstance(e[0], str) or e[0] in ('sym', 'num', 'nan', 'x'):
+        return e
+    if e[0] == 'call' and e[1] == 'astype' and len(e[2]) == 2 and e[2][1][0] == 'sym' and e[2][1][1] in FLOAT_TYPES:
+        return strip_float_casts(e[2][0])
+    out = [e[0]]
+    for c in e[1:]:
+        if isinstance(c, tuple) and c and isinstance(c[0], str):
+            out.append(strip_float_casts(c))
+        elif isinstance(c, tuple):
+            out.append(tuple(strip_float_casts(x) if isinstance(x, tuple) and x and isinstance(x[0], str) else
+                             (tuple(strip_float_casts(y) if isinstance(y, tuple) and y and isinstance(y[0], str) else y for y in x) if isinstance(x, tuple) else x)
+                             for x in c))
+        else:
+            out.append(c)
+    return tuple(out)
+
+
+def same(a, b, env=None, values=False):
+    """values=True: float casts are transparent (comparison of the values computed, not of the dtypes)"""
     try:
         pa, pb = parse(a, env), parse(b, env)
         if pa == pb:
             return True
+        if values:
+            pa, pb = strip_float_casts(pa), strip_float_casts(pb)
         c = Canon()
         return c.ratio(sort_bool(lift_where(pa))) == c.ratio(sort_bool(lift_where(pb)))
     except Exception:
